@@ -332,7 +332,7 @@ def check(pid, tier, seed):
         d = {'property': pid, 'kind': 'no-failing-input-found',
              'theorems_or_obligations_that_no_longer_check': proof_broken,
              'correspondence_disagreements': [{'what': k, 'detail': dd, 'case': props.shorten(c, 4000)}
-                                              for (k, dd, c) in disagreements[:5]],
+                                              for (k, dd, c) in distinct_disagreements(disagreements)],
              'searched': 'specification of %s evaluated on %d cases (tier %s, seed %d): no failing input' %
                          (pid, stats['evaluations'], tier, seed),
              'lean_log': lb['log'][-3000:]}
@@ -376,6 +376,19 @@ def check(pid, tier, seed):
         pid, 'OK' if exit_code == 0 else 'FAIL', tier, seed, stats['evaluations'], stats['agree'], stats['known'],
         stats['disagree'], stats['specfail'], lb['discharged'], lb['obligations'], time.time() - t0))
     return exit_code
+
+
+def distinct_disagreements(ds, limit=12):
+    seen, out = set(), []
+    for (k, dd, c) in ds:
+        sig = (k, str(dd)[:60])
+        if sig in seen:
+            continue
+        seen.add(sig)
+        out.append((k, dd, c))
+        if len(out) >= limit:
+            break
+    return out
 
 
 def setup():
